@@ -76,18 +76,39 @@ def nodes_by_index(tree_model, ete_tree):
     return out
 
 
+DICT_ORDERS = ("pre", "rev", "mid")
+
+
+def dict_order_of(leafmap):
+    """the order in which the leaf dictionaries of an input are written is part of its presentation; it is varied as a
+    deterministic function of the input itself (so that a replay rebuilds the same dictionaries)"""
+    return DICT_ORDERS[sum((i + 1) * (v + 1) for i, (_, v) in enumerate(sorted(leafmap.items()))) % 3]
+
+
+def ordered_leaves(leaves, order):
+    leaves = list(leaves)
+    if order == "rev":
+        return leaves[::-1]
+    if order == "mid":
+        h = len(leaves) // 2
+        return leaves[h:] + leaves[:h]
+    return leaves
+
+
 def build_input(O, S, leafmap, costs, leafsyn=None, onames=None, snames=None, ofeats=None, sfeats=None,
-                unordered=False, rootsyn=None):
-    """-> (input, onode, snode) where onode/snode map model ids to ete3 nodes"""
+                unordered=False, rootsyn=None, order=None):
+    """-> (input, onode, snode) where onode/snode map model ids to ete3 nodes.  The leaf dictionaries are written in
+    left-to-right leaf order, reversed, or rotated by half (order = "pre" / "rev" / "mid"; default: derived from the input)"""
     ot, st, on, sn = build_trees(O, S, onames, snames, ofeats, sfeats)
     onode = nodes_by_index(O, ot)
     snode = nodes_by_index(S, st)
-    los = {onode[v]: snode[s] for v, s in leafmap.items()}
+    keys = ordered_leaves(sorted(leafmap), order or dict_order_of(leafmap))
+    los = {onode[v]: snode[leafmap[v]] for v in keys}
     cd = cost_dict(costs)
     lca = LowestCommonAncestor(st)
     if leafsyn is None:
         return ReconciliationInput(ot, lca, los, cd), onode, snode
-    syn = {onode[v]: (set(s) if unordered else list(s)) for v, s in leafsyn.items()}
+    syn = {onode[v]: (set(leafsyn[v]) if unordered else list(leafsyn[v])) for v in keys if v in leafsyn}
     if rootsyn is not None:
         syn[onode[O.root]] = list(rootsyn)
     return SuperReconciliationInput(ot, lca, los, cd, syn), onode, snode
